@@ -338,6 +338,8 @@ func driveC18(c *h.Ctx) error {
 		} else {
 			mrows = append(mrows, fmt.Sprintf("(%q, %s, %s)", root, h.HexBytes(x), obs))
 			c.IndexCase("mism_msg", len(mrows)-1, cj)
+			c.IndexCase("mism_norm", len(mrows)-1, cj)
+			c.IndexCase("mism_hop", len(mrows)-1, cj)
 		}
 	}
 	if c.Replay != nil {
@@ -447,12 +449,16 @@ func driveC18(c *h.Ctx) error {
 		}
 	}
 	var sb strings.Builder
-	sb.WriteString("From Coq Require Import ZArith List Bool String.\nFrom KV Require Import Base Wire Cursor Schema Cases CodecRows KmipCodec.\nImport ListNotations.\nOpen Scope Z_scope.\nOpen Scope string_scope.\n")
+	sb.WriteString("From Coq Require Import ZArith List Bool String.\nFrom KV Require Import Base Wire Cursor Schema Cases CodecRows KmipCodec KmipNormRows.\nImport ListNotations.\nOpen Scope Z_scope.\nOpen Scope string_scope.\n")
 	d1, e1 := h.Chunk("vrows", "list Z * obs (list Z)", vrows, 200)
 	d2, e2 := h.Chunk("mrows", "string * list Z * obs (list Z)", mrows, 60)
 	sb.WriteString(d1 + d2)
 	fmt.Fprintf(&sb, "Definition mism_value := Eval vm_compute in bad_idx row_reenc %s 0.\nPrint mism_value.\n", e1)
 	fmt.Fprintf(&sb, "Definition mism_msg := Eval vm_compute in bad_idx row_msg_dec %s 0.\nPrint mism_msg.\n", e2)
+	// the one-hop theorem's objects on the same inputs: the normal form of what the model decodes
+	// conforms and has the same encoding; the second hop returns exactly that normal form
+	fmt.Fprintf(&sb, "Definition mism_norm := Eval vm_compute in bad_idx row_norm %s 0.\nPrint mism_norm.\n", e2)
+	fmt.Fprintf(&sb, "Definition mism_hop := Eval vm_compute in bad_idx row_hop %s 0.\nPrint mism_hop.\n", e2)
 	_ = reflect.TypeOf
 	return c.WriteCases("cases_C18.v", sb.String(), len(vrows)+len(mrows))
 }
